@@ -239,6 +239,22 @@ theorem reportSSHConnected_guarded : reportSSHConnectedConds =
     ["if wkr == nil", "if wkr.state != StateBooting || !wkr.firstSSHConnection.IsZero()",
      "if wp.mTimeToSSH != nil"] := rfl
 
+/-- `saveTags` merges the two managed tags into the instance's own tag map (`tags[k] = v`) and writes
+that whole map back (`SetTags(tags)`), only when something differs — `C15.saveTags`. -/
+theorem saveTags_shape :
+    saveTagsAssigns = ["tags := instance.Tags()",
+      "update := cloud.InstanceTags{ wkr.wp.tagKeyPrefix + tagKeyInstanceType: wkr.instType.Name, wkr.wp.tagKeyPrefix + tagKeyIdleBehavior: string(wkr.idleBehavior), }",
+      "save := false", "tags[k] = v", "save = true"] ∧
+    saveTagsConds = ["if tags[k] != v", "if save", "if err != nil"] ∧
+    setTagsLines = ["err := instance.SetTags(tags)"] := ⟨rfl, rfl, rfl⟩
+
+/-- `worker.Close()`: `defer wkr.executor.Close()` is registered first, before the mutex is taken and
+`defer wkr.mtx.Unlock()`, so it runs last, after the unlock — `C15.workerClose`. -/
+theorem workerClose_shape :
+    workerCloseCalls = ["wkr.executor.Close", "wkr.mtx.Lock", "wkr.mtx.Unlock", "rr.Close", "rr.Close"] ∧
+    workerCloseSkeleton = ["defer", "call wkr.executor.Close", "call wkr.mtx.Lock", "defer",
+                           "call wkr.mtx.Unlock", "for {", "}", "for {", "}"] := ⟨rfl, rfl⟩
+
 /-- The quota back-off is a fixed minute (why quota scenarios get a longer deadline). -/
 theorem quota_ttl : "quotaErrorTTL = time.Minute" ∈ poolTimeConsts := by decide
 
